@@ -179,3 +179,7 @@ package transport
 //@   loop 0 modifies everything
 //@   site handleUDPAddr#0 assert [C07] objof(pkg) != objof(buffer)
 //@   safety [C05]
+//
+//@ func (*TarsClient).Send
+//@   trusted
+//@   allocates
